@@ -2,6 +2,7 @@ package props
 
 import (
 	"fmt"
+	"strings"
 
 	distiller "github.com/markusmobius/go-domdistiller"
 	"verif/harness/eng"
@@ -30,12 +31,19 @@ var c13Atoms = append(append([]ora.Atom{}, c09Atoms...),
 		// two pagers whose Prev/Next links differ only by a tracking parameter: equal scores
 		return "<div class=\"pagination\"><a href=\"/story?ref=a&amp;page=1\">Prev</a> <a href=\"/story?ref=a&amp;page=3\">Next</a></div><p>" + t.W(21) + "</p><div class=\"pagination\"><a href=\"/story?ref=b&amp;page=1\">Prev</a> <a href=\"/story?ref=b&amp;page=3\">Next</a></div>"
 	}},
+	ora.Atom{Name: "TEASERS", Gen: func(t *ora.Tok) string {
+		var sb strings.Builder
+		for i := 1; i <= 8; i++ {
+			sb.WriteString(fmt.Sprintf("<div class=\"teaser\"><h3><a href=\"/story/item-%d?page=2\">%s</a></h3><a href=\"/story/item-%d?page=2&amp;more=1\">more »</a></div>", i, t.W(3), i))
+		}
+		return sb.String()
+	}},
 	ora.Atom{Name: "OG", Gen: func(t *ora.Tok) string {
 		return "<div itemscope itemtype=\"http://schema.org/Article\"><span itemprop=\"headline\">" + t.W(3) + "</span><span itemprop=\"author\">" + t.W(2) + "</span></div>"
 	}},
 )
 
-var c13Alphabet = []string{"Pc", "Pb", "H", "UL3", "TBLd", "TBLl", "TBLi", "IMG", "IMGss", "LAZY", "FIG", "FIGl", "VID", "YT", "TW", "INL", "JS1", "HIDs", "PAGER", "PAGER2", "PAGER3", "LBL", "OG", "FALLB", "ARIAf"}
+var c13Alphabet = []string{"Pc", "Pb", "H", "UL3", "TBLd", "TBLl", "TBLi", "IMG", "IMGss", "LAZY", "FIG", "FIGl", "VID", "YT", "TW", "INL", "JS1", "HIDs", "PAGER", "PAGER2", "PAGER3", "LBL", "OG", "FALLB", "ARIAf", "TEASERS"}
 
 const c13URL = "http://example.com/story?page=2#section-2"
 
@@ -70,7 +78,7 @@ func c13Check(c *eng.Case) *eng.Outcome {
 		pag     string
 		url     string
 	}
-	var ref [2]*run    // per URL class
+	var ref [2]*run // per URL class
 	pagRef := map[string]string{}
 	sawPag := false
 	for urlSet := 0; urlSet < 2; urlSet++ {
@@ -138,7 +146,7 @@ func init() {
 	eng.Register(&eng.Prop{
 		ID:        "C13",
 		DesignRef: "§5 C13",
-		Rule: "corpus = S1,S2 with <= 1 insertion (quick; plus all pairs containing a pager atom) / <= 2 insertions (thorough) over 25 atoms chosen for what the logging code walks (tables, images, embeds, three pagers, visibility special cases (fallback-image, aria-hidden), multi-label comment block, schema.org item); each document is executed under all 128 configurations (16 log-flag sets x URL nil/set x SkipPagination x 2 algorithms). " +
+		Rule: "corpus = S1,S2 with <= 1 insertion (quick; plus all pairs containing a pager atom) / <= 2 insertions (thorough) over 26 atoms chosen for what the logging code walks (tables, images, embeds, three pagers, a teaser list with 16 equally scored next-links, visibility special cases (fallback-image, aria-hidden), multi-label comment block, schema.org item); each document is executed under all 128 configurations (16 log-flag sets x URL nil/set x SkipPagination x 2 algorithms). " +
 			"Oracle: Title/Text/HTML/WordCount/ContentImages/MarkupInfo identical across the 64 configurations of a URL class; PaginationInfo identical across flag sets for fixed (URL, skip, algorithm) and empty when skipped or without URL; Result.URL = supplied URL. Non-trivial = some configuration found a pagination link.",
 		Enumerate: c13Enumerate,
 		Check:     c13Check,
